@@ -113,6 +113,8 @@ impl ModelCheck {
             profile.batch_pct = 30;
             knobs.timeout_secs = *krng.pick(&[1u32, 5, 60, 120]);
             knobs.conn_limit = 64;
+            // the thread driving the 1 Hz timer is stalled during long advances and has to catch up
+            knobs.stall = krng.chance(1, 2);
         }
         let mut g = Gen::new(&mut wrng, profile);
         let sc = g.scenario(knobs);
